@@ -139,8 +139,15 @@ class PageWorld:
         if self.inflight:
             self.overlap_any = True
             self.count("fault.page_operation_overlap")
-        self.inflight[rec["id"]] = rec
         pc = self.pc
+        if kind in ("rd", "wr") and k not in pc._pages and len(pc._pages) >= int(self.sc["cap"]):
+            oldest = next(iter(pc._pages.values()), None)
+            if oldest is not None and oldest.dirty and any(
+                    o["key"] == k and {o["kind"], kind} == {"rd", "wr"} for o in self.inflight.values()):
+                # a read miss and a write miss of the same page overlap while the cache is full and its LRU victim is
+                # dirty: both will wait on that victim's write-back (check-then-act hazards across the wait)
+                self.probe("probe.page_read_write_miss_same_page_behind_dirty_victim")
+        self.inflight[rec["id"]] = rec
         if kind == "rd":
             pages = pc._pages
             if k not in pages:
@@ -179,7 +186,7 @@ class PageWorld:
         paid = st.dirty_writebacks - self.prev_wb
         if len(gone) > paid:
             how = "replaced-by-clean-page" if any(g in pages for g in gone) else "evicted"
-            g0 = sorted(gone)[0]
+            g0 = seg["key"] if (seg is not None and seg.get("key") in gone) else sorted(gone)[0]
             if seg is not None and kind == "rd":
                 # which page of the read was it, and was it written while this read was already running?
                 how += "/requested-page" if g0 == seg["key"] else "/readahead-page"
